@@ -1,7 +1,7 @@
 (* C13 - harmonic projection takes the target's harmony and keeps the source's music.
    Statements only; proofs in Proofs/ProjectProofs.v (plain projection; integer ticks). *)
-From ML Require Import Model.Types gen.Tables Model.Pitch Model.Rel Model.Render Model.Slice Model.Project.
-From ML Require Import Proofs.RenderProofs Proofs.SliceProofs Proofs.ProjectProofs Proofs.ProjectSymbols.
+From ML Require Import Model.Types gen.Tables Model.Pitch Model.Rel Model.Ton Model.Render Model.Slice Model.Import Model.Renote Model.Project.
+From ML Require Import Proofs.RenderProofs Proofs.SliceProofs Proofs.PitchProofs Proofs.ProjectProofs Proofs.ProjectSymbols Proofs.ProjectKeepPitch.
 Open Scope Z_scope.
 Open Scope list_scope.
 
@@ -34,6 +34,35 @@ Qed.
 Theorem C13_symbols : forall s g r, project_plain s g false = Some r ->
   Forall (from_source (notes_of_score s)) (notes_of_score r).
 Proof. intros s g r. exact (project_symbols s g 0 r). Qed.
+
+(* PITCH KEEPING (partial: the pitches; the onsets and tied durations of the kept notes are evaluated on the implementation by the
+   oracle).  keep_pitch writes the source in absolute notes (C11_score_to_absolute_sounding: same sound), projects it plainly and
+   re-notates the result in the target's chords (C11_to_scale_note: same pitch under the same chord).  For the middle step: every note
+   of the projection of an all-absolute source is a rest, a continuation or one of the source's absolute notes with its dynamics, and
+   it sounds that note's pitch under ANY chord it is put on *)
+Theorem C13_keep_pitch_partial : forall s g r, project_plain s g false = Some r ->
+  Forall abs_or_silent (notes_of_score s) ->
+  Forall (fun x => is_rest x = true \/ is_cont x = true \/
+                   exists n p, In n (notes_of_score s) /\ tn n = abs_pnote p /\ tamp x = tamp n /\
+                               forall c last, elem_ok c -> pitch_full c (tn x) last = Some (Some p))
+         (notes_of_score r).
+Proof. exact keep_pitch_notes. Qed.
+
+(* non-vacuity: a source of absolute notes (pitches 0, 4, 7) meets the hypothesis, is projected, and its notes read 0 4 | 4 7 under the
+   target's chords IV and VI *)
+Example C13_ex_keep_pitch :
+  let nt p du := mkTN (abs_pnote p) du 66 in
+  let c e ps := mkRC (mkC e (bare "") (mkT 0 MMaj 0) 0) ps in
+  let s := [c 0 [("piano__0"%string, [nt 0 2; nt 4 2])]; c 4 [("piano__0"%string, [nt 7 4])]] in
+  let g := [c 3 [("harp__0"%string, [mkTN (plain KS 0 0) 3 66])]; c 5 [("harp__0"%string, [mkTN (plain KS 0 0) 3 66])]] in
+  Forall abs_or_silent (notes_of_score s) /\
+  option_map (map (fun x => map (fun p => map (fun n => (pitch_full (rc x) (tn n) 0, tdur n)) (snd p)) (rparts x))) (project_plain s g false)
+  = Some [[[(Some (Some 0), 2); (Some (Some 4), 1)]]; [[(Some None, 1); (Some (Some 7), 2)]]].
+Proof.
+  split; [|vm_compute; reflexivity].
+  unfold notes_of_score; cbn [flat_map rparts snd app].
+  repeat (apply Forall_cons; [right; right; eexists; reflexivity|]). apply Forall_nil.
+Qed.
 
 Example C13_ex :
   let nt k v du := mkTN (mkP k Abs v 0 None None) du 66 in
